@@ -105,39 +105,35 @@ pub fn as_duration(config: &SmartCalcConfig, tokinizer: &Tokinizer, fields: &BTr
             None => return Err("Duration type not valid".to_string())
         };
 
-        match fields.get("source") {
-            Some(token_info) => match token_info.token_type.borrow().deref()  {
-                Some(TokenType::Duration(duration)) => {
-                    let seconds = duration.num_seconds().abs() as i64;
-                    
-                    return match constant_type {
-                        ConstantType::Day => Ok(TokenType::Duration(Duration::days(seconds / DAY))),
-                        ConstantType::Second => Ok(TokenType::Duration(Duration::seconds(seconds))),
-                        ConstantType::Minute => Ok(TokenType::Duration(Duration::minutes(seconds / MINUTE as i64))),
-                        ConstantType::Hour => Ok(TokenType::Duration(Duration::hours(seconds / HOUR as i64))),
-                        ConstantType::Week => Ok(TokenType::Duration(Duration::weeks(seconds / WEEK as i64))),
-                        _ => return Err("Duration type not valid".to_string()) 
-                    };
-                },
-                Some(TokenType::Time(time, _)) => {
-                    let seconds = time.num_seconds_from_midnight() as i64;
-                    
-                    return match constant_type {
-                        ConstantType::Month => Ok(TokenType::Duration(Duration::days(seconds / MONTH))),
-                        ConstantType::Year => Ok(TokenType::Duration(Duration::days(seconds / YEAR))),
-                        ConstantType::Day => Ok(TokenType::Duration(Duration::days(seconds / DAY))),
-                        ConstantType::Second => Ok(TokenType::Duration(Duration::seconds(seconds))),
-                        ConstantType::Minute => Ok(TokenType::Duration(Duration::minutes(seconds / MINUTE as i64))),
-                        ConstantType::Hour => Ok(TokenType::Duration(Duration::hours(seconds / HOUR as i64))),
-                        ConstantType::Week => Ok(TokenType::Duration(Duration::weeks(seconds / WEEK as i64))),
+        /* The source can be a variable, the helper functions resolve it */
+        if let Some(duration) = get_duration("source", fields) {
+            let seconds = duration.num_seconds().abs() as i64;
+            
+            return match constant_type {
+                ConstantType::Day => Ok(TokenType::Duration(Duration::days(seconds / DAY))),
+                ConstantType::Second => Ok(TokenType::Duration(Duration::seconds(seconds))),
+                ConstantType::Minute => Ok(TokenType::Duration(Duration::minutes(seconds / MINUTE as i64))),
+                ConstantType::Hour => Ok(TokenType::Duration(Duration::hours(seconds / HOUR as i64))),
+                ConstantType::Week => Ok(TokenType::Duration(Duration::weeks(seconds / WEEK as i64))),
+                _ => return Err("Duration type not valid".to_string()) 
+            };
+        }
 
-                        _ => return Err("Duration type not valid".to_string()) 
-                    };
-                }
-                _ => ()
-            },
-            None => return Err("Source information not valid".to_string())
-        };
+        if let Some((time, _)) = get_time("source", fields) {
+            let seconds = time.num_seconds_from_midnight() as i64;
+            
+            return match constant_type {
+                ConstantType::Month => Ok(TokenType::Duration(Duration::days(seconds / MONTH))),
+                ConstantType::Year => Ok(TokenType::Duration(Duration::days(seconds / YEAR))),
+                ConstantType::Day => Ok(TokenType::Duration(Duration::days(seconds / DAY))),
+                ConstantType::Second => Ok(TokenType::Duration(Duration::seconds(seconds))),
+                ConstantType::Minute => Ok(TokenType::Duration(Duration::minutes(seconds / MINUTE as i64))),
+                ConstantType::Hour => Ok(TokenType::Duration(Duration::hours(seconds / HOUR as i64))),
+                ConstantType::Week => Ok(TokenType::Duration(Duration::weeks(seconds / WEEK as i64))),
+
+                _ => return Err("Duration type not valid".to_string()) 
+            };
+        }
         
         
         let duration = match get_number("duration", fields) {
